@@ -45,8 +45,7 @@ def main(argv=None):
     tier = a.tier if a.tier in ("quick", "thorough") else "quick"
     seed = int(os.environ.get("VERIF_SEED", "0") or 0)
     if a.replay:
-        print(open(a.replay).read())
-        return 0
+        return RP.rerun(a.replay)
     if prop not in PROPS:
         print("unknown or not-applicable property %s" % prop); return 2
     t0 = time.time()
